@@ -339,7 +339,7 @@ pub fn run_crash_case(out: &mut Out, ro: &mut Reopener, prop: &str, case: u64, s
     let mut nontrivial = false;
     let mut case_text = String::new();
     for (i, l) in steps.iter().enumerate() {
-        let line = out.next_line();
+        let line = out.ops.len();
         let first = l.split(' ').next().unwrap_or("");
         let what = l.split(" | ").next().unwrap_or(l).to_string();
         case_text.push_str(&what);
@@ -491,7 +491,7 @@ pub fn run_fault_case(out: &mut Out, ro: &mut Reopener, case: u64, steps: &[Stri
     let mut after_fault = 0;
     let mut stuck = false;
     for l in steps {
-        let line = out.next_line();
+        let line = out.ops.len();
         let what = l.split(" | ").next().unwrap_or(l).to_string();
         case_text.push_str(&what);
         case_text.push('\n');
